@@ -6,7 +6,7 @@ import re
 import vlib
 from vlib import Check
 
-NT, NPH = 7, 2
+NT, NPH = 9, 2
 OPN = {0: "Lookup", 1: "Apply", 2: "Stub", 3: "Origin", 4: "Cancel", 5: "Reset"}
 
 
@@ -134,7 +134,7 @@ def run(replay=None):
     ck.notes["op_mix"] = mix
     ck.coverage["distinct_nontrivial"] = len({json.dumps(h["ops"]) for h in hs if any(any(c) for c in h["cells"])})
     ck.coverage["rule"] = ("random histories of 4-26 operations (Lookup/Apply/Return/Origin/Cancel/Reset incl. stale handles, re-apply, second Reset, re-mock) over 1-3 builders, "
-                           "7 targets (3 functions, 2 exported and 2 unexported methods of one struct) and 2 origin placeholders; after EVERY step the whole text mapping (~1.8 MB) is diffed against the pristine snapshot; "
+                           "9 targets (3 functions, 2 exported and 2 unexported methods of one struct, 2 same-named unexported functions of different packages) and 2 origin placeholders; after EVERY step the whole text mapping (~1.8 MB) is diffed against the pristine snapshot; "
                            "non-trivial = some entry was patched; distinct by operation list")
     ck.coverage["samples"] = [{"ops": h["ops"][:8], "cells": h["cells"][:8]} for h in hs[:2]]
     for h in hs:
